@@ -42,8 +42,26 @@ class SpecMixin:
         def B(e):
             return [Res(st, V(BoolV(e), "bool"))]
 
+        if f in self.reg.specfuns:
+            return [Res(st, self.reg.specfuns[f](self, st, [v(x) for x in a]))]
+        if f == "forall_val":      # forall_val(k, P): P for every value k (instantiated at the keys that are accessed)
+            kname = a[0].id
+            kv = fresh_val("qk_" + kname)
+            s2 = st.copy(); s2.env = dict(st.env); s2.env[kname] = V(kv, "str")
+            body = self.truth(s2, self.ev1(s2, a[1]))
+            return B(qforall([kv], z3.Implies(z3.And(key_trig(kv), Val.is_StrV(kv)), body), patterns=[key_trig(kv)]))
+        if f == "isregular":
+            return B(self.fk(st, Val.p(v(a[0]).t)) == 1)
+        if f == "forall_keys":     # forall_keys(d, k, P): P for every key k of dict d
+            d = v(a[0]); kname = a[1].id
+            kv = fresh_val("qk_" + kname)
+            s2 = st.copy(); s2.env = dict(st.env); s2.env[kname] = V(kv, key_type(d.ty))
+            n0 = len(s2.pc)
+            body = self.truth(s2, self.ev1(s2, a[2]))
+            has = self.dhas(st, d, kv)
+            return B(qforall([kv], z3.Implies(z3.And(key_trig(kv), has), body), patterns=[key_trig(kv)]))
         if f == "old":
-            so = old.copy(); so.env = dict(binds)
+            so = old.copy(); so.env = dict(st.env)      # parameters + quantifier-bound variables
             self._spec_ctx = (old, binds)
             return [Res(st, self.ev1(so, a[0]))]
         if f == "implies":
@@ -70,7 +88,7 @@ class SpecMixin:
             body = self.truth(s2, self.ev1(s2, a[3]))
             rng = z3.And(lo <= kv, kv < hi)
             if f == "forall":
-                return B(z3.ForAll([kv], z3.Implies(rng, body)))
+                return B(qforall([kv], z3.Implies(rng, body)))
             return B(z3.Exists([kv], z3.And(rng, body)))
         if f == "elems":
             x = v(a[0])
@@ -89,11 +107,14 @@ class SpecMixin:
             return B(self.elems(st, x) == self.elems(st, y))
         if f == "haskey":
             d, k = v(a[0]), v(a[1])
-            return B(z3.Contains(self.dkeys(st, d), z3.Unit(k.t)))
+            self.touch_key(st, k)
+            return B(self.dhas(st, d, k.t))
         if f == "lookup":
             d, k = v(a[0]), v(a[1])
             ty = (a[2].id if isinstance(a[2], ast.Name) else a[2].value) if len(a) > 2 else elem_type(d.ty)
-            has = z3.Contains(self.dkeys(st, d), z3.Unit(k.t))
+            if not self.has_bound_var(k.t):
+                self.touch_key(st, k)
+            has = self.dhas(st, d, k.t)
             val = V(z3.Select(self.dmap(st, d), k.t), ty)
             tmp = State(); tmp.heap = st.heap
             self.assume_type(tmp, val)
@@ -106,16 +127,20 @@ class SpecMixin:
         if f == "distinct":
             x = v(a[0]); seq = self.elems(st, x)
             qa, qb = fresh_int("da"), fresh_int("db")
-            return B(z3.ForAll([qa, qb], z3.Implies(z3.And(0 <= qa, qa < qb, qb < z3.Length(seq)), seq[qa] != seq[qb])))
+            return B(qforall([qa, qb], z3.Implies(z3.And(0 <= qa, qa < qb, qb < z3.Length(seq)), seq[qa] != seq[qb])))
         if f == "unchanged":       # unchanged(obj.field) / unchanged(elems(obj))
             cur = v(a[0])
-            so = old.copy(); so.env = dict(binds)
+            so = old.copy(); so.env = dict(st.env)
             prev = self.ev1(so, a[0])
             if isinstance(a[0], ast.Call) and getattr(a[0].func, "id", "") == "elems":
                 return B(self.elems(st, cur) == self.elems(old, prev))
             return B(cur.t == prev.t)
         if f == "isfresh":         # allocated during this call
-            return B(z3.And(Val.is_RefV(v(a[0]).t), Val.r(v(a[0]).t) >= self.frontier))
+            x = v(a[0])
+            if self._fresh_range is not None:      # assumed postcondition of a callee: allocated during that call
+                lo, hi = self._fresh_range
+                return B(z3.And(Val.is_RefV(x.t), Val.r(x.t) >= lo, Val.r(x.t) < hi))
+            return B(z3.And(Val.is_RefV(x.t), Val.r(x.t) >= self.frontier))
         if f in ("isfile", "isdir", "issymlink", "exists_path"):
             p = Val.p(v(a[0]).t)
             return B(self.fs_pred(st, f, p))
@@ -131,14 +156,6 @@ class SpecMixin:
         if f == "raised":
             return B(z3.BoolVal(False))
         raise Unsupported(f"spec function {f}")
-
-    def fs_pred(self, st, f, p):
-        kind = z3.Select(st.field("$fs_kind"), p)
-        st.reads.add("$fs_kind")
-        if f == "isfile": return kind == 1
-        if f == "isdir": return kind == 2
-        if f == "issymlink": return kind == 3
-        return kind != 0
 
     def isinstance_term(self, st, x, classes):
         t = x.t
